@@ -38,6 +38,9 @@ def hx(a):
 
 
 def make_material(m):
+    if m.get("kind") == "shipped":
+        from srlife import library
+        return library.load_deformation(m["name"], m["variant"]).get_neml_model()
     E, nu = fl(m["E"]), fl(m["nu"])
     emodel = elasticity.IsotropicLinearElasticModel(E, "youngs", nu, "poissons")
     aT, av = [fl(x) for x in m["alpha_T"]], [fl(x) for x in m["alpha_v"]]
